@@ -301,6 +301,16 @@ CK_RV P11Attribute::retrieve(Token *token, bool isPrivate, CK_VOID_PTR pValue, C
 			return CKR_GENERAL_ERROR;
 		}
 	}
+	else if ((attr.isUnsignedLongAttribute() && size != sizeof(CK_ULONG)) ||
+		 (attr.isBooleanAttribute() && size != sizeof(CK_BBOOL)) ||
+		 attr.isMechanismTypeSetAttribute() ||
+		 attr.isAttributeMapAttribute())
+	{
+		// The stored attribute (an object file can hold anything) is not
+		// of the fixed size the caller's buffer is checked against.
+		ERROR_MSG("Internal error: stored attribute does not have the fixed size");
+		return CKR_GENERAL_ERROR;
+	}
 
 	// [PKCS#11 v2.40, C_GetAttributeValue]
 	// 3. Otherwise, if the pValue field has the value NULL_PTR, then the
@@ -341,12 +351,22 @@ CK_RV P11Attribute::retrieve(Token *token, bool isPrivate, CK_VOID_PTR pValue, C
 					return CKR_GENERAL_ERROR;
 				}
 				if (value.size() !=  0) {
+					if (value.size() < attrSize)
+					{
+						ERROR_MSG("Internal error: stored attribute is shorter than the fixed size");
+						return CKR_GENERAL_ERROR;
+					}
 					const unsigned char* attrPtr = value.const_byte_str();
 					memcpy(pValue,attrPtr,attrSize);
 				}
 			}
 			else if (attr.getByteStringValue().size() != 0)
 			{
+				if (attr.getByteStringValue().size() < attrSize)
+				{
+					ERROR_MSG("Internal error: stored attribute is shorter than the fixed size");
+					return CKR_GENERAL_ERROR;
+				}
 				const unsigned char* attrPtr = attr.getByteStringValue().const_byte_str();
 				memcpy(pValue,attrPtr,attrSize);
 			}
